@@ -22,7 +22,9 @@ import (
 var errInjected = errors.New("injected I/O fault")
 
 // error values a failing stream may return: none of them is io.EOF, so none may be taken for the end of the document
-var faultErrors = []error{errInjected, io.ErrUnexpectedEOF, io.ErrClosedPipe, io.ErrNoProgress, syscall.EIO, os.ErrDeadlineExceeded}
+// (round 13: nor is an error that merely wraps io.EOF - io.Reader's end-of-stream signal is the bare value)
+var faultErrors = []error{errInjected, io.ErrUnexpectedEOF, io.ErrClosedPipe, io.ErrNoProgress, syscall.EIO, os.ErrDeadlineExceeded,
+	fmt.Errorf("read tcp 10.0.0.7:443: connection reset: %w", io.EOF), &os.PathError{Op: "read", Path: "/mnt/share/a.stl", Err: io.EOF}}
 
 // faultReader delivers the first k bytes (in chunks) and then fails with a non-EOF error, either on its own
 // (0, err) or together with the last chunk (m>0, err)
